@@ -1,15 +1,23 @@
 (** * Feat/FeaturesCheck.v — C13 correspondence: decode one case, run the model and the Spec oracle,
     compare with what the implementation did.  Executable only (extracted / vm_compute).
 
-    case := (case (kind k) (note "..") (schema D) (features "f"..) (all "f"..) (accepted b)
-                  [(erased D') ((requests R..) | (erased-rejected "why"))])
+    case := (case (kind k) (note "..") D (features "f"..) (all "f"..) (accepted b)
+                  [(erased D') ((requests R..) [(physical ..)] | (erased-rejected "why"))])
+    D    := (schema (types T..) (query "Q") (mutation opt) (subscription opt) (directives ..) (additional "N"..))
     R    := (req (kind introspect) (names "N"..)        (a OBS INTRO)        (b OBS INTRO))
           | (req (kind stdintro)                        (a OBS)              (b OBS))
           | (req (kind chain) (query "..") (chain C..)  (a OBS LINES FINAL)  (b OBS LINES FINAL))
           | (req (kind doc) (query "..") (vars "..") (tags ..) (a OBS) (b OBS))
     OBS  := (obs (verdict V) (resp (data J) (errors E..)) (calls "Type.field"..))
     side a = the schema built from D with Request.Features = features,
-    side b = the schema built from the harness's own erasure D' with all features. *)
+    side b = the schema built from the harness's own erasure D' (every surviving type registered)
+             with all features,
+    side c (physical ..) = D' handed to schema.New with only its own AdditionalTypes, present when
+             that registers fewer types (known finding orphaned-type-stays-visible).
+
+    Order of judgement for an accepted schema: harness erasure = [erase S F]; the oracle on every
+    request (a = b, no gated resolver call); schema.New's verdict = [schema_ok]; the model against
+    side a and side b (introspection probe, chains); the physically reduced schema. *)
 From Coq Require Import List NArith ZArith Bool String.
 From ApiFu Require Import Base.Sexp Feat.FeaturesModel Feat.FeaturesSpec.
 Import ListNotations.
